@@ -48,14 +48,14 @@ CLAIMED = {
    "Composition: implode works element by element (one push/extend per element), so per-element encoding + decoding + model round trip give the "
    "string identity; the direct round-trip harness (Vec growth in a loop) does not decide and is kept as an attempt. alloc::fmt::format stubbed."),
  "C14": ("§4 C14",
-   "Bounded model checking of the YAML plain-scalar decision by composition with an INDEPENDENT core-schema recogniser written in the harness: "
-   "(R) the real reader functions parse_int / parse_float accept an ASCII string exactly when the recogniser does (all strings of length 1..3; floats 1..2 "
-   "quick, 3 thorough); (W) a text string the real writer leaves unquoted (must_quote) is not a keyword, integer or float for the recogniser (all ASCII "
-   "strings of length 1..3, 4 thorough). R and W give: a text string written as a plain scalar is read back as the same kind -- so number-, sign- and "
-   "dot-prefixed look-alikes keep their type. Narrow: saphyr's scanner between writer and reader, non-ASCII and longer strings, byte strings, keys, "
-   "special floats, CBOR, TOML, XML, CSV/TSV and --from/--to are outside the claim.",
-   "Stubs: Num::from_str_radix by a digit-validity model, <Num as Neg>::neg by the identity, alloc::fmt::format; the reader's keyword list is restated in the model. "
-   "The direct (uncomposed) harness does not decide and is kept as an attempt."),
+   "Bounded model checking of the YAML plain-scalar round trip by composition through an INDEPENDENT interpolant written from the core schema "
+   "(keyword, or optional sign then a digit / a dot and a digit / an infinity spelling): (R) if the real reader functions parse_int / parse_float "
+   "resolve an ASCII string to a number, the string is number-like (all strings of length 1..4 for integers, 1..2 for floats, 3 thorough); (W) every "
+   "keyword- or number-like ASCII string of length 1..3 (4 thorough) is quoted by the real must_quote. R and W give: a text string written as a plain "
+   "scalar is read back as a string. Narrow: saphyr's scanner between writer and reader, non-ASCII and longer strings, byte strings, keys, special "
+   "floats, the reader's own schema conformance (e.g. `0x+f`), CBOR, TOML, XML, CSV/TSV and --from/--to are outside the claim.",
+   "Stubs: Num::from_str_radix by a sign-and-digits model, <Num as Neg>::neg by the identity, alloc::fmt::format; the reader's keyword list is restated in the model. "
+   "The direct (uncomposed) harness does not decide and is kept as an attempt. The interpolant has slack on both sides so that P-preserving changes raise no alarm."),
  "C15": ("§4 C15",
    "Bounded model checking of operator precedence: the real `impl Op for BinaryOp` is order-isomorphic to the manual's table for all 25 operators (625 pairs) with the "
    "documented associativity; prec_climb::climb groups `a op1 b op2 c` as the table says for one operator per level (49 pairs quick, 144 thorough) "
